@@ -246,7 +246,7 @@ def drive(tier):
 
 def run(tier):
     rep = Report("C19", tier)
-    rep.add_mc("MC_Rpc", vlib.run_mc("MC_Rpc", workers=4))
+    rep.add_mc("MC_Rpc", vlib.run_mc("MC_Rpc", cfg="MC_Rpc" if tier == "quick" else "MC_Rpc_thorough"))
     recs = drive(tier)
     mm = vlib.validate("Trace_Rpc", recs)
     rep.apply_mismatches(recs, mm)
